@@ -34,7 +34,7 @@ CHILD_FOR_TYPE = {"bbA": ["ch1", "ch5", "ch4"], "bbB": ["ch2"], "bbC": ["ch3"], 
 
 BASE_NAMES = ["a", "b", "c", "d", "e", "f", "g", "h"]
 ODD_NAMES = ["3x", "u.y", "u.a", "u_a", "u_y", "v_q", "u_k", "zz"]
-INSTS = ["u", "v", "u_k"]
+INSTS = ["u", "v", "u_k", "m", "r", "t"]
 TYPES = ["and", "nand", "or", "nor", "xor", "xnor", "buf", "not", "input", "0", "1", "x"]
 
 
@@ -192,6 +192,11 @@ def gen_op(rng, model, w):
                 fi = _arg(rng, fi)
         if rng.random() < 0.35 and model.nodes:
             fo = _pick_names(rng, model, 2)
+            if rng.random() < 0.6:
+                sinks = [x for x, tt in model.nodes.items() if tt in ("and", "nand", "or", "nor", "xor", "xnor")
+                         or (tt in ("buf", "not") and not model.fanin(x))]
+                if sinks:
+                    fo = [rng.choice(sinks)]
             if rng.random() < 0.08:
                 fo.append(n)
             fo = _arg(rng, fo)
@@ -199,6 +204,20 @@ def gen_op(rng, model, w):
     if k in ("connect", "disconnect"):
         us = _arg(rng, _pick_names(rng, model, 2))
         vs = _arg(rng, _pick_names(rng, model, 2))
+        if k == "connect" and rng.random() < 0.65:
+            # bias towards a legal pair (by the approximate model)
+            sinks = [n for n, t in model.nodes.items() if t in ("and", "nand", "or", "nor", "xor", "xnor")
+                     or (t in ("buf", "not", "bb_input") and not model.fanin(n))]
+            drivers = [n for n, t in model.nodes.items() if t not in ("bb_input", "bb_output")]
+            if sinks and drivers:
+                v = rng.choice(sinks)
+                u = rng.choice(drivers)
+                if model.nodes[v] == "buf" and rng.random() < 0.3:
+                    free_bbo = [n for n, t in model.nodes.items() if t == "bb_output"
+                                and not any(a == n for (a, b) in model.edges)]
+                    if free_bbo:
+                        u = rng.choice(free_bbo)
+                us, vs = u, v
         if k == "disconnect" and model.edges and rng.random() < 0.6:
             u, v = rng.choice(sorted(model.edges))
             us, vs = u, v
